@@ -90,3 +90,15 @@ Definition gen_view (g : gen) : ctor_view :=
   | GPN c => (pc_method c, pc_bobs c, pc_singles c, gen_start_stroke g, [], g_start_row g)
   | _ => ([], [], [], gen_start_stroke g, gen_early_calls g, g_start_row g)
   end.
+
+(* ---- tower view (C20) ---- *)
+From Wh Require Import Tower.
+Definition tower_case := (list tmsg * (list bool * list (nat * Z) * list (Z * ustring)))%type.
+Definition chk_tower (c : tower_case) : bool :=
+  let '(h, (bells, assigned, names)) := c in
+  let t := tower_run h in
+  list_eqb Bool.eqb (tw_bells t) bells
+  && Nat.eqb (length (tw_assigned t)) (length assigned)
+  && forallb (fun bu => opt_eqb Z.eqb (dict_get Nat.eqb (tw_assigned t) (fst bu)) (Some (snd bu))) assigned
+  && Nat.eqb (length (tw_names t)) (length names)
+  && forallb (fun un => opt_eqb ustr_eqb (dict_get Z.eqb (tw_names t) (fst un)) (Some (snd un))) names.
